@@ -1,5 +1,7 @@
 import LitexModel.Clock.Xilinx
 import LitexModel.Clock.Lattice
+import LitexModel.Clock.Intel
+import LitexModel.Clock.Gowin
 /-
   C20 specification predicates: `…Valid dev req cfg` is the conclusion of the property for one vendor —
   "every requested output frequency, recomputed from the returned multipliers and dividers, is within its margin
@@ -69,5 +71,34 @@ instance (d : NDev) (r : NReq) (c : NCfg) : Decidable (NValidNoPfd d r c) := by
   unfold NValidNoPfd; infer_instance
 instance (d : NDev) (r : NReq) (c : NCfg) : Decidable (NValid d r c) := by
   unfold NValid; infer_instance
+
+/-! ## Intel (ALTPLL) -/
+
+/-- n, m inside the declared counter ranges, PFD = clkin/n and VCO = clkin*m/n inside their windows, one post-scale
+    divider c per requested output, each inside the declared range and giving `vco/c` within the output's margin. -/
+def AValid (d : ADev) (r : AReq) (c : ACfg) : Prop :=
+  d.nLo ≤ c.n ∧ c.n < d.nHi ∧ c.m ∈ pyRange d.mLo d.mHi ∧
+  inRange d.pfdMin d.pfdMax (r.clkin.divNat c.n) = true ∧
+  inRangeM d.vcoMin d.vcoMax r.vcoMargin (c.vco r) = true ∧
+  c.cs.length = r.outs.length ∧
+  ∀ p ∈ r.outs.zip c.cs, p.2 ∈ d.cs.toList ∧ within ((c.vco r).div p.2) p.1 = true
+
+/-! ## Gowin GW1N / GW2A (rPLL / PLLVR) -/
+
+/-- Frequency on an output pin: CLKOUT / CLKOUTP = clkin*fdiv/idiv, CLKOUTD3 = that / 3, CLKOUTD = that / SDIV. -/
+def gPinFreq (outF : Q) (sdiv : Nat) : Nat → Q
+  | 2 => outF.divNat 3
+  | 3 => outF.divNat sdiv
+  | _ => outF
+
+/-- IDIV/FBDIV in 1..63, ODIV one of the primitive's values, PFD = clkin/idiv and VCO = CLKOUT*odiv inside their
+    windows, an even CLKOUTD divider, and every requested clock sits on a pin whose frequency passes the helper's own
+    acceptance test `|obtained - requested| <= obtained*margin`. -/
+def GValid (d : GDev) (r : GReq) (c : GCfg) : Prop :=
+  c.idiv ∈ pyRange 1 64 ∧ c.fdiv ∈ pyRange 1 64 ∧ c.odiv ∈ gOdivs ∧
+  (d.pfdMin.le (r.clkin.divNat c.idiv) && (r.clkin.divNat c.idiv).le d.pfdMax) = true ∧
+  inRangeM d.vcoMin d.vcoMax r.vcoMargin ((gOutF r c.idiv c.fdiv).mulNat c.odiv) = true ∧
+  c.sdiv % 2 = 0 ∧ c.pins.length = r.outs.length ∧
+  ∀ p ∈ r.outs.zip c.pins, p.2 ≤ 3 ∧ gMiss (gPinFreq (gOutF r c.idiv c.fdiv) c.sdiv p.2) p.1 = false
 
 end Litex.Clock
